@@ -391,7 +391,7 @@ structure Req where
   globBlockIP : Bool
   globBlockHost : Bool
   profBlock : Bool
-  /-- the malformed-ECS error of `ratelimitmw.location`: answered FORMERR after the access checks -/
+  /-- the malformed-ECS error of `ratelimitmw.location`: answered FORMERR after the access checks and the limiter -/
   badECS : Bool
   /-- the global limiter's verdict -/
   rlDrop : Bool
@@ -525,7 +525,8 @@ def rlDropEff (q : Req) : Bool :=
      | some _ => q.profRl = 2 || (q.profRl = 0 && q.rlDrop)
      | none => q.rlDrop)
 
-/-- The whole path: spoofed port, device result, access, malformed ECS, limiter, special domains, main. -/
+/-- The whole path: spoofed port, device result, access, limiter, malformed ECS (since the C09 repair the
+FORMERR is a rate-limited response like any other), special domains, main. -/
 def serve (q : Req) : Effects :=
   if q.port0 then {}
   else match q.dev with
@@ -533,8 +534,8 @@ def serve (q : Req) : Effects :=
     | .error => {}
     | _ =>
       if q.globBlockIP ∨ q.globBlockHost ∨ (q.dev.data.isSome ∧ q.profBlock) then {}
-      else if q.badECS then { resp := if q.writeErr then none else some ⟨1, false, .none⟩ }
       else if rlDropEff q then {}
+      else if q.badECS then { resp := if q.writeErr then none else some ⟨1, false, .none⟩ }
       else if q.special then { resp := if q.writeErr then none else some ⟨0, false, .none⟩ }
       else initialmw q
 
